@@ -241,6 +241,13 @@ func freePort() string {
 
 func startPool(bin string, extra ...string) *poolProc {
 	addr := freePort()
+	for i := 0; i+1 < len(extra); i++ {
+		if extra[i] == "--bind" { // the caller chooses the address (IPv6 loopback, ...)
+			addr = extra[i+1]
+			extra = append(append([]string{}, extra[:i]...), extra[i+2:]...)
+			break
+		}
+	}
 	args := append([]string{"-vv", "pool", "--bind", addr, "--store", "memory"}, extra...)
 	cmd := exec.Command(bin, args...)
 	p := &poolProc{cmd: cmd, addr: addr, out: &bytes.Buffer{}, exited: make(chan struct{})}
